@@ -25,6 +25,8 @@ def natural(x):
 
 
 def make_test(cfg):
+    import math
+
     import numpy as np
     from shangrla.core.NonnegMean import NonnegMean
 
@@ -35,7 +37,8 @@ def make_test(cfg):
     args = {
         "test": getattr(NonnegMean, cfg["test"]),
         "u": u,
-        "N": np.inf if cfg["N"] is None else int(cfg["N"]),
+        # an infinite population may be declared with any float infinity, not only the numpy constant object
+        "N": ([np.inf, math.inf, float("inf")][int(cfg["t"] * 1000) % 3]) if cfg["N"] is None else int(cfg["N"]),
         "t": cfg["t"],
         "random_order": cfg.get("random_order", True),
     }
